@@ -153,6 +153,12 @@ def install():
         for ev in EVENTS:
             if ev[0] == 'exec':
                 names |= ev[1]
+            elif ev[0] == 'open' and (ev[2] or not ev[1].startswith(KNOWN_PREFIXES)) and STATE.get('warmup_violation') is None:
+                # first-use effects are not excused by happening during the warm-up
+                STATE['warmup_violation'] = ('file-opened', f, 'open(%r%s) while evaluating the benign filter %r' % (
+                    ev[1], ' for writing' if ev[2] else '', f))
+            elif ev[0] == 'danger' and STATE.get('warmup_violation') is None:
+                STATE['warmup_violation'] = ('process-or-network', f, '%s %s while evaluating the benign filter %r' % (ev[1], ev[2], f))
         mods |= set(sys.modules) - before
     STATE['allowed_names'] = names
     STATE['allowed_modules'] = mods
@@ -196,6 +202,9 @@ def check(case):
     """case = {'filter': text, 'payload': text}.  Returns 'compiled' | 'rejected'."""
     import pyparsing
     install()
+    if STATE.get('warmup_violation'):
+        st, f, detail = STATE['warmup_violation']
+        raise Violation(st, {'filter': f, 'payload': '', 'slot': 'warm-up'}, detail, ('warm-up',))
     text = case['filter']
     payload = case.get('payload', '')
     idents = set(IDENT.findall(payload)) - STATE['allowed_names'] - {'x', 'y', 'z', 'r', 'a', 'b', 'v', 'true', 'false', 'not', 'and', 'or'}
